@@ -882,6 +882,7 @@ var ColorNames = map[string]Color{
 	"cornflowerblue":       ColorCornflowerBlue,
 	"cornsilk":             ColorCornsilk,
 	"crimson":              ColorCrimson,
+	"cyan":                 ColorAqua,
 	"darkblue":             ColorDarkBlue,
 	"darkcyan":             ColorDarkCyan,
 	"darkgoldenrod":        ColorDarkGoldenrod,
@@ -936,6 +937,7 @@ var ColorNames = map[string]Color{
 	"lightyellow":          ColorLightYellow,
 	"limegreen":            ColorLimeGreen,
 	"linen":                ColorLinen,
+	"magenta":              ColorFuchsia,
 	"mediumaquamarine":     ColorMediumAquamarine,
 	"mediumblue":           ColorMediumBlue,
 	"mediumorchid":         ColorMediumOrchid,
